@@ -280,6 +280,22 @@ def run(ctx):
         ctx.check(ok, "R3.3", f"{wq.split('.')[-1]}.{meth}:pack-before-frame", "the record's frame can be written before pack() (which emits new descriptors) has run", fn,
                   "pack() dominates every fp.write of the frame")
 
+    # the member-descriptor collection of a grouped record is walked EVERY time the object is packed (by every writer): it must be a
+    # container, not a one-shot iterator
+    gcls = prog.cls("flow.record.base.GroupedRecord")
+    ctx.use(gcls._module)
+    n_gd = 0
+    for fn0 in prog.methods_of(gcls).values():
+        for st in ast.walk(fn0):
+            if isinstance(st, ast.Assign) and any(norm(t) == "self.descriptors" for t in st.targets):
+                n_gd += 1
+                v = st.value
+                one_shot = isinstance(v, ast.GeneratorExp) or (isinstance(v, ast.Call) and call_name(v) in ("map", "filter", "zip", "iter", "reversed", "enumerate", "itertools.chain"))
+                ctx.check(not one_shot, "R3.3", "GroupedRecord.descriptors:re-iterable", f"self.descriptors = `{norm(v)[:60]}` is a one-shot iterator: the first packer that packs the grouped "
+                          "record exhausts it, a second writer given the same object emits no member descriptors and its stream cannot be decoded", st, "a list / tuple",
+                          key="R3.3:GroupedRecord.descriptors:one-shot-iterator")
+    ctx.floor("R3.3", "assignments of GroupedRecord.descriptors", n_gd, 1)
+
     # ------------------------------------------------------------------ R3.4 key injectivity
     ctx.rule("R3.4", "the identifier (name, hash) distinguishes same-name descriptors only through the hash input, which must be an injective "
                      "encoding of the field list: adjacent variable-length parts need a separator outside the alphabets of field and type names")
